@@ -23,6 +23,25 @@ Definition covered (row : string * bool * list string) : bool :=
 Definition uncovered_selects : list (string * bool * list string) :=
   filter (fun r => negb (covered r)) select_table.
 
+(* A channel send / receive / range OUTSIDE a select blocks with no alternative, so Close cannot
+   wake it. Each such operation in the source must be one of the following, which cannot block forever:
+   - the handshake reader goroutines report one error on errChan, a channel of capacity 1 that each
+     goroutine sends to at most once (it returns right after);
+   - ForceTick sends on the unbuffered Force channel; nothing in the library calls it (checked below). *)
+Definition allowed_bare_ops : list (string * string) :=
+  [ ("GoBackNConn.clientHandshake$go1", "errChan<-");
+    ("GoBackNConn.serverHandshake$go1", "errChan<-");
+    ("IntervalAwareForceTicker.ForceTick", "t.Force<-") ].
+
+Definition bare_eqb (a b : string * string) : bool :=
+  String.eqb (fst a) (fst b) && String.eqb (snd a) (snd b).
+
+Definition unexpected_bare_ops : list (string * string) :=
+  filter (fun o => negb (existsb (bare_eqb o) allowed_bare_ops)) bare_chanop_table.
+
+Definition force_tick_callers : list string :=
+  map fst (filter (fun e => String.eqb (snd e) "ForceTick") call_table).
+
 (* ---- C18 ---- *)
 Definition short_name (f : string) : string :=
   (* text after the last '.' *)
@@ -124,3 +143,46 @@ Definition lock_pairs : list (string * string) :=
                       end) access_table.
 Definition lock_order_violations : list (string * string) :=
   filter (fun p => existsb (fun q => String.eqb (fst p) (snd q) && String.eqb (snd p) (fst q)) lock_pairs) lock_pairs.
+
+(* Interprocedural lock order. acquire_table lists every Lock/RLock with the locks already held;
+   call_lock_table lists every call inside the package with the locks held at the call site.
+   A function's acquisition closure is what it or anything it calls may lock. An ordered pair
+   (held, acquired) arises from a direct acquisition or from a call made while holding a lock;
+   two goroutines deadlock when both (a, b) and (b, a) can arise, or a lock is re-acquired (a, a). *)
+Definition dedup (l : list string) : list string :=
+  fold_right (fun x acc => if mem x acc then acc else x :: acc) [] l.
+
+Definition function_names : list string :=
+  dedup (function_table ++ map (fun r => fst (fst r)) acquire_table ++
+         map (fun r => fst (fst r)) call_lock_table ++ map (fun r => snd (fst r)) call_lock_table).
+
+Definition direct_acquires (f : string) : list string :=
+  map (fun r => snd (fst r)) (filter (fun r => String.eqb (fst (fst r)) f) acquire_table).
+
+Definition qcallees (f : string) : list string :=
+  dedup (map (fun r => snd (fst r)) (filter (fun r => String.eqb (fst (fst r)) f) call_lock_table)).
+
+Definition lookup_acq (tbl : list (string * list string)) (f : string) : list string :=
+  match find (fun e => String.eqb (fst e) f) tbl with Some e => snd e | None => [] end.
+
+Definition acq_round (tbl : list (string * list string)) : list (string * list string) :=
+  map (fun f => (f, dedup (direct_acquires f ++ flat_map (lookup_acq tbl) (qcallees f)))) function_names.
+
+Fixpoint acq_iter (n : nat) (tbl : list (string * list string)) : list (string * list string) :=
+  match n with O => tbl | S k => acq_iter k (acq_round tbl) end.
+
+(* 12 rounds: longer than any call chain of the package (checked: one more round changes nothing) *)
+Definition acq_closure : list (string * list string) :=
+  Eval vm_compute in acq_iter 12 (map (fun f => (f, [])) function_names).
+
+Definition acq_closure_stable : bool :=
+  forallb (fun e => Nat.eqb (List.length (snd e)) (List.length (lookup_acq (acq_round acq_closure) (fst e)))) acq_closure.
+
+Definition order_pairs : list (string * string) :=
+  Eval vm_compute in
+  (flat_map (fun r => map (fun h => (h, snd (fst r))) (snd r)) acquire_table ++
+   flat_map (fun r => flat_map (fun h => map (fun l => (h, l)) (lookup_acq acq_closure (snd (fst r)))) (snd r)) call_lock_table).
+
+Definition deadlock_pairs : list (string * string) :=
+  filter (fun p => String.eqb (fst p) (snd p) ||
+                   existsb (fun q => String.eqb (fst p) (snd q) && String.eqb (snd p) (fst q)) order_pairs) order_pairs.
